@@ -12,6 +12,9 @@ import Norad.Generated.LayerOps
   kind separately).
 * `source_*_refuses_iff`: hence the operations refuse exactly when some guard of the SOURCE's chain fires.
 * `source_index_updates_match_model`: the source updates the redundant indices exactly where the model does.
+* `source_insertGlyph_eq_model`: the model's `insertGlyph` is `insert_glyph` asking the index the source asks;
+  `source_load_pathset_eq_model`: the model's loader builds the path set from the collection, with the skip count and at
+  the place (after the default layer is moved to the front) the source's `let path_set = …` statement says.
 
 Property theorems only.
 -/
@@ -193,6 +196,53 @@ theorem model_frame_rules (S : LayerSet) (keep : Layer → Bool) (L : Layer) (n 
 example : (newLayerGuards.any (fun g => evalS (fun _ => true) LayerSet.default [] defaultName false g.1)) = true := by
   decide
 example : (newLayerGuards.any (fun g => evalS (fun _ => true) LayerSet.default [] ['a'] false g.1)) = false := by
+  decide
+
+/-! ### `insert_glyph` asks the contents index; `load` builds the path set after the default layer is moved -/
+
+/-- the model's `insertGlyph` IS `insert_glyph` asking the index the SOURCE asks (`contents`): were the source to ask the
+    glyph map, this equality would not type-check -/
+theorem source_insertGlyph_eq_model (lower : Str → Str) (assignG : Str → List Str → Option Str) :
+    insertGlyphBy lower assignG insertGlyphDecidesBy = insertGlyph lower assignG := by
+  funext L g
+  simp only [insertGlyphBy, insertGlyph, insertGlyphDecidesBy, Index.has, decide_eq_true_eq]
+  split
+  · rfl
+  · cases assignG g L.pathSet <;> rfl
+
+/-- the two readings differ: on a layer whose glyph map has a name the index lacks (after `entry(..).or_insert`), asking
+    the glyph map assigns no file name -/
+theorem insertGlyphBy_glyphs_differs :
+    (insertGlyphBy id (fun g _ => some (g ++ ".glif".toList)) .glyphs (entryOrInsert Layer.default ['z']) ['z']).1.contents = [] ∧
+    (insertGlyph id (fun g _ => some (g ++ ".glif".toList)) (entryOrInsert Layer.default ['z']) ['z']).1.contents
+      = [(['z'], "z.glif".toList)] := by
+  decide
+
+/-- the model's loader builds the path set the way the SOURCE's `let path_set = …` statement says: from `layers`, skipping
+    one, AFTER the default layer has been moved to the front -/
+theorem source_load_pathset_eq_model (lower : Str → Str) (f : LFilter) (t : Tree) (S : LayerSet)
+    (h : loadTreeF lower f t = some S) :
+    loadPathSet.source = "layers" ∧
+    ∃ ls ls', loadLayers lower t.dirs (t.layercontents.filter fun e => f.shouldLoad e.1 e.2) = some ls ∧
+      defaultFirst (if !f.includesDefault && !ls.any (·.isDefault) then ls ++ [Layer.default] else ls) = some ls' ∧
+      S.layers = ls' ∧ S.pathSet = loadPathSetOf lower loadPathSet ls ls' := by
+  refine ⟨by decide, ?_⟩
+  unfold loadTreeF at h
+  cases hls : loadLayers lower t.dirs (t.layercontents.filter fun e => f.shouldLoad e.1 e.2) with
+  | none => simp [hls] at h
+  | some ls =>
+    simp only [hls] at h
+    split at h
+    · simp at h
+    · rename_i ls' hd
+      simp only [Option.some.injEq] at h
+      subst h
+      exact ⟨ls, ls', rfl, hd, rfl, rfl⟩
+
+-- non-vacuity: a tree that lists another layer first loads, and that layer's directory is in the path set
+example : (loadTreeF id { all := true, loadDefault := false, custom := none }
+    { layercontents := [(['b'], "glyphs.b".toList), (defaultName, glyphsDir)],
+      dirs := [("glyphs.b".toList, ⟨[], []⟩), (glyphsDir, ⟨[], []⟩)] }).map (·.pathSet) = some ["glyphs.b".toList] := by
   decide
 
 end Layers
